@@ -49,6 +49,12 @@ TRUSTED = [
 ]
 ASSUMPTIONS = [
     "processes long enough for nucleation and solidification to complete (a failing run is C13's subject)",
+    "the reference row for repetition i is the code's own single run `_run_xD(seed=i)` on a fresh object: this check "
+    "ties the STRUCTURE (row i = single run i, modes, histories); the VALUES of a single run are tied to the Lean "
+    "models by C08/C13 (0D/1D/2D loops), not here",
+    "the calls on the global generator are used to check WHICH stream a draw comes from (kinetic seed 2024, then the "
+    "repetition number) - the property's anchor; their exact form/number and the pool's batching are diagnostics only; "
+    "the pool size is verified to follow the patched cpu_count (otherwise exit 2, broken observation)",
     "Nrep >= 1; how in {sequential, async} (other strings silently do nothing - modelled, not part of the property)",
 ]
 RULE = ("two 1D vacuum-induced-surface-freezing histories on a tall vial (run twice / raise Nrep on the used object); "
@@ -220,8 +226,12 @@ def _worker_tasks():
     os.remove(path)
     groups = []
     for evs in per.values():
-        for i in range(0, len(evs), 4):
-            groups.append(evs[i:i + 4])
+        cur = None
+        for e in evs:
+            if e == ["seed", 2024] or cur is None:      # every task begins by seeding the kinetic stream
+                cur = []
+                groups.append(cur)
+            cur.append(e)
     return sorted(groups, key=json.dumps)
 
 
@@ -230,8 +240,15 @@ def run_impl(case):
     _PID[0] = os.getpid()
     import ethz_snow.snowing as sn
 
-    real_cpu = sn.mp.cpu_count
+    real_cpu, real_pool = sn.mp.cpu_count, sn.mp.Pool
     sn.mp.cpu_count = lambda: case["cpu"]
+    pool_sizes = []
+
+    def pool(*a, **kw):
+        pool_sizes.append(a[0] if a else kw.get("processes"))
+        return real_pool(*a, **kw)
+
+    sn.mp.Pool = pool
     try:
         nrep = case["nrep"]
         nmax = max([nrep] + [op[1] for op in case["ops"] if op[0] == "setNrep"])
@@ -289,7 +306,7 @@ def run_impl(case):
                 except Exception as e:
                     out.append({"raise": core.exc_class(e)})
         obs = {"raise": None, "out": out, "ref": ref, "refs": refs, "used_prog": cur, "ref_evs": ref_evs,
-               "world": _world(w0, nmax)}
+               "world": _world(w0, nmax), "pool_sizes": pool_sizes}
         # the single run on the USED object, global generator perturbed: must equal the reference
         np.random.seed(4242)
         obs["used"] = [_single(S, case, i) for i in range(min(nmax, 2 if case["dim"] == "homogeneous" else 1))]
@@ -301,7 +318,12 @@ def run_impl(case):
 
         return {"raise": core.exc_class(e), "tb": traceback.format_exc()[-800:]}
     finally:
-        sn.mp.cpu_count = real_cpu
+        sn.mp.cpu_count, sn.mp.Pool = real_cpu, real_pool
+        if any(n != case["cpu"] for n in pool_sizes):
+            # not a verdict about the code: the worker count is no longer steered by the patched mp.cpu_count, so
+            # this case does not vary the pool size as it claims (infrastructure error, exit 2)
+            raise RuntimeError(f"broken observation: pools of {pool_sizes} workers although mp.cpu_count was patched to "
+                               f"{case['cpu']}; adapt the harness to how the code chooses its pool size")
 
 
 # ---------------------------------------------------------------------------
@@ -355,13 +377,10 @@ def compare(case, impl, model):
         if op[0] == "run":
             if "raise" in a:
                 dis.append(f"op {i} {op}: implementation raised {a['raise']}")
-            elif a["evs"] != b["evs"]:
-                dis.append(f"op {i} {op}: global-generator calls impl {a['evs'][:12]} vs model {b['evs'][:12]}")
-            else:
-                mg = sorted((l[j:j + 4] for l in b.get("worker_evs", []) for j in range(0, len(l), 4)), key=json.dumps)
-                if a["worker_tasks"] != mg:
-                    dis.append(f"op {i} {op}: generator calls in the pool workers, per task: impl {a['worker_tasks'][:4]} "
-                               f"vs model {mg[:4]}")
+            elif _streams(a["evs"]) != _streams(b["evs"]):
+                # the exact call pattern is a diagnostic, not part of the property (results are compared below)
+                dis.append(f"TIE: [diagnostic, not a verdict] op {i} {op}: streams used in this process: impl "
+                           f"{_streams(a['evs'])[:8]} vs model {_streams(b['evs'])[:8]}")
         else:
             if ("raise" in a) != ("raise" in b) or ("raise" in a and a["raise"] != b["raise"]):
                 dis.append(f"op {i} results: impl {a.get('raise', 'table')} vs model {b.get('raise', 'table')}")
@@ -377,8 +396,25 @@ def compare(case, impl, model):
             if a["columns"] != KEYS[case["dim"]]:
                 dis.append(f"op {i} results: columns {a['columns']}")
     if impl["world"] != model["world"]:
-        dis.append(f"global generator afterwards: impl {impl['world']} vs model {model['world']}")
+        dis.append(f"TIE: [diagnostic, not a verdict] global generator afterwards: impl {impl['world']} vs model {model['world']}")
     return dis
+
+
+def _streams(evs):
+    """the seeds given to the global generator, each with the number of draws taken before the next re-seeding:
+    what matters is WHICH stream a draw comes from, not the form or number of the calls"""
+    out = []
+    for e in evs:
+        if e[0] == "seed":
+            out.append([e[1], 0])
+        elif out:
+            out[-1][1] += 1
+    return out
+
+
+def _seeded_ok(evs, i):
+    st = _streams(evs)
+    return [x[0] for x in st] == [2024, i] and all(x[1] >= 1 for x in st)
 
 
 def predicates(case, impl):
@@ -401,9 +437,10 @@ def predicates(case, impl):
         if op[0] == "run":
             last_how = op[1]
             if "raise" not in a and op[1] == "async" and nrep > 1:
-                want = sorted(([["seed", 2024], ["draw"], ["seed", j], ["draw"]] for j in range(nrep)), key=json.dumps)
-                if a["worker_tasks"] != want:
-                    odd = [g for g in a["worker_tasks"] if g not in want][:2]
+                okall = all(any(_seeded_ok(g, j) for g in a["worker_tasks"]) for j in range(nrep)) and \
+                    len(a["worker_tasks"]) == nrep
+                if not okall:
+                    odd = [g for g in a["worker_tasks"] if not any(_seeded_ok(g, j) for j in range(nrep))][:2]
                     out.append(Failure(clause="rep_is_seeded_run", key="seeding|Snowing.run|async",
                                        detail=f"parallel run of Nrep={nrep}: the tasks do not seed the generator with "
                                               f"2024 and with their repetition number i (an int): {odd}"))
@@ -439,7 +476,7 @@ def predicates(case, impl):
             out.append(Failure(clause=clause, key=f"{clause}|Snowing.results|{h1[-1]}-{h2[-1]}",
                                detail=f"tables after {h1} and after {h2} differ"))
     for i, ev in enumerate(impl["ref_evs"]):
-        if ev != [["seed", 2024], ["draw"], ["seed", i], ["draw"]]:
+        if not _seeded_ok(ev, i):
             out.append(Failure(clause="rep_is_seeded_run", key="seeding|Snowing._run_xD|",
                                detail=f"_run_xD(seed={i}) uses the global generator as {ev}; expected kinetic draw from "
                                       f"seed 2024 and F_rand as the first draw after np.random.seed({i})"))
